@@ -272,9 +272,9 @@ def run(res, proof):
         proof.problem('driver', str(e))
     # ComplexS.identifiers / StrandS.identifiers as translated from the working tree (Gen/PyIdentifiers.lean) against the real classmethods
     from .pyident_stream import source_derived_pyident
-    source_derived_pyident(res, proof)
+    core.run_stream(source_derived_pyident, res, proof)
     from .pycomplex3_stream import source_derived_pycomplex3
-    source_derived_pycomplex3(res, proof)      # ComplexS.__init__ as translated from the working tree against the real constructor
+    core.run_stream(source_derived_pycomplex3, res, proof)      # ComplexS.__init__ as translated from the working tree against the real constructor
     res.sample(lines[:14])
 
 
